@@ -220,7 +220,11 @@ func checkC11(w *World, r *Report) {
 				for _, p := range pr.Paths {
 					if len(p.Effects) >= 2 {
 						a, d := false, false
-						for _, e := range p.Effects[:4] {
+						lim := 4
+						if len(p.Effects) < lim {
+							lim = len(p.Effects)
+						}
+						for _, e := range p.Effects[:lim] {
 							if e.Kind == "call" && strings.HasSuffix(e.Target, "WaitGroup).Add") {
 								a = true
 							}
